@@ -375,16 +375,47 @@ theorem stmt_succ (P : Prog) (f : Nat) (ihE : ESound P f) (ihC : CallSound P f) 
     exact ⟨h1, h2, h3, h4, h5, h6, fi + 1, o, by simp only [execS]; exact hex, horel⟩
   | ret es =>
     simp only [lowerS] at h
-    cases hl : lowerRet P f nm es next with
-    | none => simp [hl] at h
-    | some q =>
-      obtain ⟨rs, code, n1⟩ := q
-      simp only [hl, Option.some.injEq] at h
-      subst h
-      obtain ⟨f1, hm, hfr, hn1, hnr, hrs, hbd⟩ := ihR es nm next rs code n1 env st st' hl hrel hbel hrun
-      refine ⟨hn1, hfr, hnr, hrs, hbd, (fun n' hn' => by cases hn'), f1 + 1, .returned (resVals st' rs), ?_, ?_⟩
-      · simp [execS, hm]
-      · exact ⟨_, rfl, by simp [resVals, List.map_map, Function.comp]⟩
+    cases hrc : retCallOf es with
+    | some q0 =>
+      obtain ⟨g, args⟩ := q0
+      simp only [hrc] at h
+      have hes := retCallOf_some hrc
+      subst hes
+      cases hc : lowerCall P f nm g args next with
+      | none => simp [hc] at h
+      | some q =>
+        obtain ⟨rs, cc, n1⟩ := q
+        simp only [hc, Option.some.injEq] at h
+        subst h
+        obtain ⟨st1, hrun1, hrun2⟩ := ssaSteps_split hrun
+        obtain ⟨fi, hev, hbd, hrsb, hfr1, hn1, hnr1⟩ := ihC nm g args next rs cc n1 env st st1 hc hrel hbel hrun1
+        obtain ⟨hrv, hlen, hub, _, hbd2, hfr2, hn2, hnr2⟩ := retMovs_sound rs n1 st1 st' hbd hrsb hrun2
+        refine ⟨by simp only; omega, hfr1.trans hfr2 hn1, NoRet_append hnr1 hnr2, hub, hbd2,
+          (fun n' hn' => by cases hn'), ?_⟩
+        by_cases h1 : rs.length = 1
+        · -- one result: an ordinary value
+          match rs, h1, hev with
+          | [(id, t)], _, hev =>
+            rw [show List.length [(id, t)] = 1 from rfl, show resVals st1 [(id, t)] = [t.decode (st1 id)] from rfl,
+              packResults_one] at hev
+            refine ⟨fi + 1, .returned [t.decode (st1 id)], by simp [execS, hev], _, rfl, Or.inl ?_⟩
+            rw [leaf_resVals, hrv]; rfl
+        · rw [packResults_many _ _ (resVals_length st1 rs) h1] at hev
+          refine ⟨fi + 1, .returned [.agg (resVals st1 rs)], by simp [execS, hev], _, rfl, Or.inr ⟨?_, ?_⟩⟩
+          · rw [leaf_resVals, hrv]
+          · rw [leaf_resVals, resVals_length, hlen]; exact h1
+    | none =>
+      simp only [hrc] at h
+      cases hl : lowerRet P f nm es next with
+      | none => simp [hl] at h
+      | some q =>
+        obtain ⟨rs, code, n1⟩ := q
+        simp only [hl, Option.some.injEq] at h
+        subst h
+        obtain ⟨f1, hm, hfr, hn1, hnr, hrs, hbd⟩ := ihR es nm next rs code n1 env st st' hl hrel hbel hrun
+        refine ⟨hn1, hfr, hnr, hrs, hbd, (fun n' hn' => by cases hn'), f1 + 1, .returned (resVals st' rs), ?_, ?_⟩
+        · simp [execS, hm]
+        · exact ⟨_, rfl, Or.inl (leaf_resVals st' rs).symm⟩
 
 theorem block_succ (P : Prog) (f : Nat) (ihS : SSound P f) (ihB : BSound P f) : BSound P (f + 1) := by
   intro ss nm next r env st st' h hrel hbel hrun
